@@ -201,10 +201,13 @@ CHECKS["C17"] = dict(
     level="exploration",
     level_text=("runtime monitor around every decoder entry point (Cbor2JsonManyObjects, DecodeIfBinaryToBytes/String, DecodeObjectToStr; in the "
                 "binary build also ConsoleWriter.Write and the journald writer): recover() classifies panics (runtime.Error = violation), the heap "
-                "allocation counter bounds memory per call (64*len+1MiB), a watchdog bounds time, the input is written to disk before each call so a "
-                "process-fatal crash keeps its witness. Inputs: all 16 843 008 strings of 1-3 bytes (exhaustive), a header x length-argument x "
-                "nesting-prefix grid, structure-aware random items, nesting bombs, mutations of valid streams, and every cut point of valid streams "
-                "(prefix output and error/no-error compared with the per-event decode)."),
+                "allocation counter bounds memory per call (512*len+256KiB, confirmed with the exact counter), a watchdog bounds time, the input is written "
+                "to disk before each call so a process-fatal crash keeps its witness; a third of the inputs are decoded again from a reader that "
+                "returns one byte per Read (same output and error/no-error), from a reader that fails half-way and into a destination that fails. "
+                "Inputs: all 16 843 008 strings of 1-3 bytes (exhaustive), a header x length-argument (incl. 2^20..2^30, 2^31, 2^63, 2^64-1) x "
+                "nesting-prefix grid, the timestamp tag over extreme floats and integers, structure-aware random items, nesting bombs, mutations of "
+                "valid streams, and every cut point of valid streams (prefix output and error/no-error compared with the per-event decode); in the "
+                "binary build the valid streams also come from the real logger running generated programs (cut at every offset, and mutated)."),
     technique="runtime monitoring: panic/allocation/termination oracles around the decoder over exhaustive short inputs, grids, mutations and all cut points",
     stages=_c17_stages,
     rule=("one case = one input byte string fed to every entry point (or one cut point of a valid stream). distinct_nontrivial counts distinct mutated "
